@@ -34,7 +34,7 @@ CONSTANTS
     Depth,      \* length of the call histories enumerated by Next
     EmitOn,     \* TRUE: print every completed history with the predicted observations
     Variant,    \* "contract" | "shiftcmp" | "ssreset"
-    MenuName    \* "c04" (the full menu) | "c04small" (14 operations, for depth 4) | "variant"
+    MenuName    \* "c04" (the full menu) | "c04small" (15 operations, for depth 4) | "variant"
 
 VARIABLES st, h
 
@@ -58,6 +58,7 @@ P0 == P(128, 64)
 PA == P(64, 128)
 PB == P(192, 32)
 PC == P(128, 16)
+PZ == P(0, 64)           \* zero is a parameter value like any other: no influx, pure decay towards 0
 
 \* history of the state: hist[1] is where the state came from ("init": the simulator's initial
 \* value; "free": whatever clear_results leaves, the statement does not say), later records are
@@ -145,6 +146,7 @@ Eff(op, s) ==
       [] op.k = "proto" -> Protocol(s, op.steps, op.n)
       [] op.k = "ptc"   -> ProtocolTC(s, op.steps, AbsPts(s, op))
       [] op.k = "upd"   -> Ok(UpdPar(s, op.name, op.v))
+      [] op.k = "scale" -> Ok(UpdPar(s, op.name, op.f * (IF op.name = "k" THEN s.p.kk ELSE s.p.kin)))
       [] op.k = "ov"    -> Ok(Override(s, op.v))
       [] op.k = "ss"    -> Steady(s, op.tau)
       [] op.k = "clear" -> Ok(Clear(s))
@@ -158,6 +160,7 @@ OpProto(steps, n) == [k |-> "proto", steps |-> steps, n |-> n]
 OpPtcAbs(steps, pts) == [k |-> "ptc", steps |-> steps, pts |-> pts, rpts |-> <<>>, rel |-> FALSE]
 OpPtcRel(steps, rpts) == [k |-> "ptc", steps |-> steps, pts |-> <<>>, rpts |-> rpts, rel |-> TRUE]
 OpUpd(name, v) == [k |-> "upd", name |-> name, v |-> v]
+OpScale(name, f) == [k |-> "scale", name |-> name, f |-> f]
 OpOv(v) == [k |-> "ov", v |-> v]
 OpSs(tau) == [k |-> "ss", tau |-> tau]
 OpClear == [k |-> "clear"]
@@ -166,6 +169,7 @@ StepRec(d, p) == [d |-> d, p |-> p]
 
 Proto2 == <<StepRec(2, PA), StepRec(4, PB)>>
 Proto3 == <<StepRec(2, PB), StepRec(2, PA), StepRec(6, PB)>>
+ProtoZ == <<StepRec(2, PA), StepRec(2, PZ), StepRec(2, PB)>>      \* an "off" phase between two non-zero steps
 Rel(t, ds) == [j \in 1..Len(ds) |-> TAdd(t, ds[j])]
 
 \* the menu of DESIGN.md section 5 (C04), relative to the time reached; one tick is half a time unit
@@ -181,6 +185,7 @@ Menu(s) ==
                OpPtcAbs(Proto2, Rel(t, <<1, 2, 5, 9>>)),
                OpTc(<<TEps(t), TAdd(t, 2)>>), OpPtcRel(Proto2, <<1, 2001, 6000>>),
                OpUpd("k", IF s.p.kk = 128 THEN 64 ELSE 128), OpUpd("k", IF s.p.kk = 1 THEN 64 ELSE 1),
+               OpUpd("kin", IF s.p.kin = 0 THEN 128 ELSE 0),
                OpOv(10), OpSs(T(s.nss + 1, 0)), OpClear, OpRead >>
        ELSE << OpSim(TAdd(t, m2), 1), OpSim(t, 1), OpSim(TAdd(t, 2), 1), OpSim(TAdd(t, 6), 1),
                OpSim(TAdd(t, m2), 2), OpSim(t, 2), OpSim(TAdd(t, 2), 2), OpSim(TAdd(t, 6), 2),
@@ -192,6 +197,9 @@ Menu(s) ==
                OpPtcAbs(Proto2, <<TEps(t), TEps(TAdd(t, 2)), TAdd(t, 5)>>), OpPtcRel(Proto2, <<1, 2001, 6000>>),
                OpUpd("k", IF s.p.kk = 128 THEN 64 ELSE 128), OpUpd("k", IF s.p.kk = 1 THEN 64 ELSE 1),
                OpUpd("kin", IF s.p.kin = 64 THEN 128 ELSE 64),
+               \* zero as a value: set, scale by zero, an off phase inside a protocol (both forms)
+               OpUpd("kin", IF s.p.kin = 0 THEN 128 ELSE 0), OpScale("kin", 0),
+               OpProto(ProtoZ, 1), OpPtcAbs(ProtoZ, Rel(t, <<1, 3, 5>>)),
                OpOv(10), OpSs(T(s.nss + 1, 0)), OpClear, OpRead >>
 
 Init == st = Fresh /\ h = <<>>
